@@ -193,7 +193,7 @@ def jobs(tier):
                               {'npts': list(npts), 'lmin': lmin, 'lmax0': lmax0, 'version': version, 'boundary': boundary, 'modified': modified, 'box': list(box)},
                               validate=(5 if q else 2)))
     # three dimensions with one deeply refined dimension (lmax raised twice there, the others still at their start level)
-    for npts in ([(7, 5, 5)] if q else [(7, 5, 5), (6, 6, 5), (7, 6, 5), (7, 7, 6)]):
+    for npts in ([(7, 5, 5)] if q else [(7, 5, 5), (6, 6, 5)]):
         for version in ((6, 7) if q else (6, 7, 8, 3)):
             js.append(Job('dwstate3d[pts=%s,l=1-2,v=%d,b]' % ('x'.join(map(str, npts)), version), dw_state,
                           {'npts': list(npts), 'lmin': 1, 'lmax0': 2, 'version': version, 'boundary': True, 'modified': False, 'box': [0.0, 1.0]},
